@@ -227,3 +227,131 @@ Proof.
   destruct (parse_def cfg d) as [parsed| | |] eqn:EP; try reflexivity.
   cbn [bind]. apply (nested_eq_in_place cfg d parsed (def_of_value _ _ _ Hd) Hac EP).
 Qed.
+
+(* ------------------------------------------------------------------ the single decorations *)
+Definition add_attrs (rev_attrs : bool) (extra : list aattr) (top : anode) : anode :=
+  match top with
+  | ANode nm v rp at_ ch sc =>
+      let from_attr := match at_ with Some l => l | None => [] end in
+      ANode nm v rp (Some (if rev_attrs then extra ++ from_attr else from_attr ++ extra)) ch sc
+  end.
+Definition set_repeat (r : rep) (top : anode) : anode :=
+  match top with ANode nm v _ at_ ch sc => ANode nm v (Some r) at_ ch sc end.
+Definition set_value (x : list vtok) (top : anode) : anode :=
+  match top with ANode nm _ rp at_ ch sc => ANode nm (Some x) rp at_ ch sc end.
+Definition set_self (top : anode) : anode :=
+  match top with ANode nm v rp at_ ch _ => ANode nm v rp at_ ch true end.
+
+Lemma map_ext_all {A B} : forall (f g : A -> B) l, (forall x, f x = g x) -> map f l = map g l.
+Proof. intros f g l H. induction l; simpl; [reflexivity|]. rewrite H, IHl. reflexivity. Qed.
+
+Lemma bind_map_nil {A} : forall (r : res (list A)) (g : A -> anode),
+  (let* resolved := r in
+   match map g resolved with
+   | [] => Ok []
+   | _ :: _ => let* kids := Ok [] in Ok (attach_deepest (map g resolved) kids)
+   end) = (let* resolved := r in Ok (map g resolved)).
+Proof.
+  intros r g. destruct r as [resolved| | |]; try reflexivity. cbn [bind].
+  destruct (map g resolved) eqn:E; [reflexivity|]. rewrite attach_deepest_nil. reflexivity.
+Qed.
+
+Lemma walk_resolve_nil : forall f cfg st, walk_resolve (S f) cfg st [] = Ok [].
+Proof. reflexivity. Qed.
+
+(* `k[attrs]`, `k.c`, `k#i`: the attributes written on the alias are appended to the attribute list of
+   EVERY top-level node of the definition; under reverseAttributes they are put in front *)
+Theorem alias_attributes : forall cfg k d a at_,
+  def_of cfg (Some k) = Some d -> acyclic_from cfg d = true ->
+  walk_resolve (full_fuel cfg) cfg [] [ANode (Some k) None None (Some (a :: at_)) [] false] =
+  let* resolved := resolve_def cfg d in Ok (map (add_attrs (mc_reverse_attrs cfg) (a :: at_)) resolved).
+Proof.
+  intros cfg k d a at_ Hd Hac. rewrite (alias_eq_definition_decorated cfg k d _ _ _ _ _ Hd Hac).
+  unfold full_fuel at 1. rewrite walk_resolve_nil. cbv zeta. rewrite bind_map_nil.
+  destruct (resolve_def cfg d) as [resolved| | |]; try reflexivity.
+  all: cbn [bind]; f_equal; apply map_ext_all; intros [nm v rp at0 ch sc]; reflexivity.
+Qed.
+
+(* `k*N` (each copy the converter makes of the alias carries the repeater): every top-level node of the
+   definition carries the alias' repeater *)
+Theorem alias_repeat : forall cfg k d r,
+  def_of cfg (Some k) = Some d -> acyclic_from cfg d = true ->
+  walk_resolve (full_fuel cfg) cfg [] [ANode (Some k) None (Some r) None [] false] =
+  let* resolved := resolve_def cfg d in Ok (map (set_repeat r) resolved).
+Proof.
+  intros cfg k d r Hd Hac. rewrite (alias_eq_definition_decorated cfg k d _ _ _ _ _ Hd Hac).
+  unfold full_fuel at 1. rewrite walk_resolve_nil. cbv zeta. rewrite bind_map_nil.
+  destruct (resolve_def cfg d) as [resolved| | |]; try reflexivity.
+  all: cbn [bind]; f_equal; apply map_ext_all; intros [nm v rp at0 ch sc]; reflexivity.
+Qed.
+
+(* `k{text}`: the text replaces the value of every top-level node *)
+Theorem alias_text : forall cfg k d x,
+  def_of cfg (Some k) = Some d -> acyclic_from cfg d = true ->
+  walk_resolve (full_fuel cfg) cfg [] [ANode (Some k) (Some x) None None [] false] =
+  let* resolved := resolve_def cfg d in Ok (map (set_value x) resolved).
+Proof.
+  intros cfg k d x Hd Hac. rewrite (alias_eq_definition_decorated cfg k d _ _ _ _ _ Hd Hac).
+  unfold full_fuel at 1. rewrite walk_resolve_nil. cbv zeta. rewrite bind_map_nil.
+  destruct (resolve_def cfg d) as [resolved| | |]; try reflexivity.
+  all: cbn [bind]; f_equal; apply map_ext_all; intros [nm v rp at0 ch sc]; reflexivity.
+Qed.
+
+(* `k/`: every top-level node is self-closing *)
+Theorem alias_self_closing : forall cfg k d,
+  def_of cfg (Some k) = Some d -> acyclic_from cfg d = true ->
+  walk_resolve (full_fuel cfg) cfg [] [ANode (Some k) None None None [] true] =
+  let* resolved := resolve_def cfg d in Ok (map set_self resolved).
+Proof.
+  intros cfg k d Hd Hac. rewrite (alias_eq_definition_decorated cfg k d _ _ _ _ _ Hd Hac).
+  unfold full_fuel at 1. rewrite walk_resolve_nil. cbv zeta. rewrite bind_map_nil.
+  destruct (resolve_def cfg d) as [resolved| | |]; try reflexivity.
+  all: cbn [bind]; f_equal; apply map_ext_all; intros [nm v rp at0 ch sc]; reflexivity.
+Qed.
+
+(* `k>children`: the definition's forest with the (resolved) children appended to the children of
+   the node at the end of the last-child chain of its LAST top-level node (find_deepest).  Exact side
+   condition of the code: a definition that resolves to an empty forest drops the children. *)
+Theorem alias_children : forall cfg k d ch,
+  def_of cfg (Some k) = Some d -> acyclic_from cfg d = true ->
+  walk_resolve (full_fuel cfg) cfg [] [ANode (Some k) None None None ch false] =
+  let* resolved := resolve_def cfg d in
+  match resolved with
+  | [] => Ok []
+  | _ :: _ => let* kids := walk_resolve (full_fuel cfg) cfg [] ch in Ok (attach_deepest resolved kids)
+  end.
+Proof.
+  intros cfg k d ch Hd Hac. rewrite (alias_eq_definition_decorated cfg k d _ _ _ _ _ Hd Hac).
+  destruct (resolve_def cfg d) as [resolved| | |]; try reflexivity. cbn [bind]. cbv zeta.
+  rewrite (map_id_ext (merge_into (mc_reverse_attrs cfg) (ANode (Some k) None None None ch false)) resolved).
+  - destruct resolved; reflexivity.
+  - intros [nm v rp at0 c0 sc]. reflexivity.
+Qed.
+
+(* ------------------------------------------------------------------ an alias inside a larger abbreviation *)
+(* resolution is node by node: siblings are resolved independently and concatenated *)
+Lemma walk_resolve_cons : forall f cfg st n l,
+  walk_resolve (S f) cfg st (n :: l) =
+  let* here := walk_resolve (S f) cfg st [n] in
+  let* others := walk_resolve (S f) cfg st l in Ok (here ++ others).
+Proof.
+  intros. rewrite !walk_resolve_unfold.
+  change (wlist (walk_resolve f cfg) cfg st [n]) with
+    (let* here := wnode (walk_resolve f cfg) cfg st n in let* others := Ok [] in Ok (here ++ others)).
+  rewrite bind_ok_app_nil. reflexivity.
+Qed.
+
+Lemma walk_resolve_app : forall f cfg st l1 l2,
+  walk_resolve (S f) cfg st (l1 ++ l2) =
+  let* a := walk_resolve (S f) cfg st l1 in
+  let* b := walk_resolve (S f) cfg st l2 in Ok (a ++ b).
+Proof.
+  intros f cfg st l1 l2. induction l1 as [|n l1 IH].
+  - cbn [app]. rewrite walk_resolve_nil. cbn [bind app].
+    destruct (walk_resolve (S f) cfg st l2); reflexivity.
+  - cbn [app]. rewrite (walk_resolve_cons f cfg st n (l1 ++ l2)), (walk_resolve_cons f cfg st n l1), IH.
+    destruct (walk_resolve (S f) cfg st [n]) as [here| | |]; try reflexivity. cbn [bind].
+    destruct (walk_resolve (S f) cfg st l1) as [a| | |]; try reflexivity. cbn [bind].
+    destruct (walk_resolve (S f) cfg st l2) as [b| | |]; try reflexivity. cbn [bind].
+    rewrite app_assoc. reflexivity.
+Qed.
